@@ -164,8 +164,9 @@ theorem main_eq_canon (cap : Nat) (hcap : 1 ≤ cap) : ∀ p : List UInt8,
         · have : ¬ r + 1 = MAX_RUN_LENGTH := by omega
           simp only [hr1, this, if_true, if_false]
           exact ih4 x (r + 1) q _ (by omega) hr1 hq
-        · have : r + 1 = MAX_RUN_LENGTH := by omega
-          simp only [hr1, this, if_true, if_false]
+        · have h259 : r + 1 = MAX_RUN_LENGTH := by omega
+          have hnl : ¬ MAX_RUN_LENGTH < MAX_RUN_LENGTH := Nat.lt_irrefl _
+          simp only [h259, hnl, if_true, if_false]
           exact ih0 _ _
       · have hb : (x != ch) = true := by simpa using hx
         simp only [hb, hx, if_true, if_false]
